@@ -214,7 +214,7 @@ def _a_tree_nullability(P, R):
         term = _ty(t)
 
         def thunk(ab, term=term):
-            tree = _t_tree(P, _wrap_tree(term, ("Object", _Opq("branches", [("param", "branches")]))))
+            tree = _t_tree(P, _wrap_tree(term, ("Object", [])))      # no branch: M is the empty union, fields are not looked at
             return ab.call(f.path, _params(f, [("SelectionTree<", tree)]))
         paths = _explore(P, R, "R02-a", key, "the TypeScript type of an object selection of type %s" % t, f, thunk, stops)
         if paths is None:
@@ -475,8 +475,9 @@ def _b_branch_name(P, R):
 
 def _b_flag(P, R):
     """which leaf is `__typename` must be decided by the *field name*, not by the response key (alias)"""
-    f = _inl(P, P.fn(OT + "selection_tree::to_ts::field_to_type"))
-    pv = Prov(f)
+    f0 = P.fn(OT + "selection_tree::to_ts::field_to_type", required=False)
+    f = _inl(P, f0) if f0 else None
+    pv = Prov(f) if f else None
     gf = _inl(P, _gf(P))
     pvf = Prov(gf)
     leaf_adt = ST + "SelectionTreeLeaf"
@@ -505,6 +506,10 @@ def _b_flag(P, R):
             elif v is False:
                 R.check("R02-b", "typename-flag:false", not guards, "ordinary leaves are not marked",
                         "an ordinary leaf is built under the `== \"__typename\"` test but not marked", loc=gf.loc())
+    if f is None:
+        R.undecided("R02-b", "typename-keyed-by-field-name", "kind=anchor-missing: field_to_type not found; how the to-TypeScript side recognises `__typename` is read by "
+                    "typename-literal:table only")
+        return
     conds = [x for x in f.walk() if x.get("k") == "Binary" and x.get("op") == "==" and lit_value(x["r"]) == "__typename"]
     keyed_by_leaf_name = any(has_field(pv.atoms(c["l"]), leaf_adt, "name") for c in conds)
     alias_flows = has_field(name_atoms, A + "selection_set::Field", "alias")
@@ -2084,6 +2089,19 @@ class _Abs:
                 return _Var("Continue", [v.args[0]], "core::ops::ControlFlow")
             if isinstance(v, _Var) and v.name in ("None", "Err"):
                 return _Var("Break", [v], "core::ops::ControlFlow")
+            if isinstance(v, _Opq):
+                # `?` on an undetermined Option / Result: both outcomes
+                t = peel_ty(((node or {}).get("args") or [{}])[0].get("t") or "")
+                if t.startswith("core::option::Option<"):
+                    if self.is_variant(v, "Some", 1, _NONE_ADT):
+                        return _Var("Continue", [_d(v).args[0]], "core::ops::ControlFlow")
+                    self.assume(v, _none())
+                    return _Var("Break", [_d(v)], "core::ops::ControlFlow")
+                if t.startswith("core::result::Result<"):
+                    if self.is_variant(v, "Ok", 1, "core::result::Result"):
+                        return _Var("Continue", [_d(v).args[0]], "core::ops::ControlFlow")
+                    self.assume(v, _Var("Err", [v.kid("Err.0", "err")], "core::result::Result"))
+                    return _Var("Break", [_d(v)], "core::ops::ControlFlow")
             raise _Unknown("`?` on %r" % (v,))
         if c.endswith("FromResidual::from_residual") and len(args) == 1:
             return args[0]
